@@ -60,7 +60,7 @@ def call_name(call):
     return dotted(call.func)
 
 
-def get_arg(call, pos=None, kw=None):
+def get_arg(call, pos=None, kw=None, with_default=False):
     """argument by keyword, else by position (no *args expansion)."""
     if kw is not None:
         for k in call.keywords:
@@ -68,6 +68,20 @@ def get_arg(call, pos=None, kw=None):
                 return k.value
     if pos is not None and pos < len(call.args) and not any(isinstance(a, ast.Starred) for a in call.args[: pos + 1]):
         return call.args[pos]
+    # calls with a known signature are kept in one canonical spelling (prenorm.py): find the parameter whichever way it is passed
+    from . import prenorm
+    sg = prenorm.lookup(call)
+    if sg is not None:
+        b = prenorm.bind(call, sg)
+        if b is not None:
+            if kw is not None and kw in b:
+                return b[kw]
+            if pos is not None and pos < len(sg[0]) and sg[0][pos] in b:
+                return b[sg[0][pos]]
+            if with_default:
+                nm = kw if kw is not None else (sg[0][pos] if pos is not None and pos < len(sg[0]) else None)
+                if nm in sg[1]:
+                    return sg[1][nm]
     return None
 
 
@@ -886,6 +900,128 @@ def unpack_source(name, stmt):
         return None
     pos = [i for i, e in enumerate(ds.targets[0].elts) if isinstance(e, ast.Name) and e.id == name]
     return (ds.value, pos[0]) if len(pos) == 1 else None
+
+
+def effective_kwargs(call, fn, flow):
+    """{keyword: [(path terms, value expr, statement at which the value is evaluated)]} of a call, looking through ``**D`` when D is a dict display,
+    a conditional choice of dict displays, or a local dict (display assignments, possibly per branch) extended by constant-key stores
+    (``D["k"] = v`` under conditions).  None if some ``**`` cannot be read."""
+    out = {}
+    st = enclosing_stmt(call)
+    for k in call.keywords:
+        if k.arg is not None:
+            out.setdefault(k.arg, []).append(([], k.value, st))
+            continue
+        D = k.value
+        if isinstance(D, ast.Name):
+            name = D.id
+            found = False
+            for s_ in walk_local(fn):
+                if not (isinstance(s_, ast.Assign) and len(s_.targets) == 1 and dominates_or_before(s_, st)):
+                    continue
+                tgt = s_.targets[0]
+                if isinstance(tgt, ast.Name) and tgt.id == name:
+                    leafs = ifexp_terms(s_.value)
+                    for terms, leaf in leafs:
+                        if not (isinstance(leaf, ast.Dict) and all(x is not None and str_const(x) for x in leaf.keys)):
+                            return None
+                        found = True
+                        for kk, v in zip(leaf.keys, leaf.values):
+                            out.setdefault(str_const(kk), []).append((path_condition(s_, fn, inline=False) + terms, v, s_))
+                elif isinstance(tgt, ast.Subscript) and isinstance(tgt.value, ast.Name) and tgt.value.id == name and str_const(tgt.slice):
+                    out.setdefault(str_const(tgt.slice), []).append((path_condition(s_, fn, inline=False), s_.value, s_))
+            if not found:
+                return None
+            continue
+        for terms, leaf in ifexp_terms(D):
+            if not (isinstance(leaf, ast.Dict) and all(x is not None and str_const(x) for x in leaf.keys)):
+                return None
+            for kk, v in zip(leaf.keys, leaf.values):
+                out.setdefault(str_const(kk), []).append((terms, v, st))
+    return out
+
+
+def dominates_or_before(a, b):
+    """statement a is executed (possibly conditionally) before statement b on the straight-line order of the function"""
+    fa = enclosing_function(a)
+    order = {}
+
+    def rec(n):
+        if isinstance(n, ast.stmt):
+            order[id(n)] = len(order)
+        for ch in ast.iter_child_nodes(n):
+            if isinstance(ch, FUNC_TYPES) or isinstance(ch, ast.ClassDef):
+                continue
+            rec(ch)
+    if fa is None:
+        return True
+    for s_ in fa.body:
+        rec(s_)
+    return order.get(id(a), 0) < order.get(id(b), 0)
+
+
+def loop_roles(target, it):
+    """{loop variable: ('index', None) | ('elem', iterable)} for the headers
+         for v in S / for i, v in enumerate(S) / for a, b in zip(S, T) / for i, (a, b) in enumerate(zip(S, T)) /
+         for i, a, b in zip(range(len(X)), S, T) / for i in range(len(S))
+    'index' is the 0-based position of the iteration (enumerate without start, or a leading range(len(..)) / range(n) member of a zip)."""
+    out = {}
+
+    def is_pos_range(e):
+        return isinstance(e, ast.Call) and call_name(e) == "range" and len(e.args) == 1
+
+    def rec(tg, itr):
+        if isinstance(tg, ast.Name):
+            if is_pos_range(itr):
+                out[tg.id] = ("index", None)
+            else:
+                out[tg.id] = ("elem", itr)
+            return
+        if isinstance(tg, (ast.Tuple, ast.List)) and isinstance(itr, ast.Call):
+            cn = call_name(itr)
+            if cn == "enumerate" and len(tg.elts) == 2 and itr.args and get_arg(itr, 1, "start") is None:
+                if isinstance(tg.elts[0], ast.Name):
+                    out[tg.elts[0].id] = ("index", None)
+                rec(tg.elts[1], itr.args[0])
+                return
+            if cn == "zip" and len(tg.elts) == len(itr.args):
+                for t, a in zip(tg.elts, itr.args):
+                    rec(t, a)
+                return
+        for n in ast.walk(tg):
+            if isinstance(n, ast.Name):
+                out[n.id] = ("unknown", itr)
+    rec(target, it)
+    return out
+
+
+def expand_star_kwargs(call):
+    """[(terms, call')] where `f(a, **(D1 if c else D2))` (dict displays with constant keys, possibly nested conditionals) is split into
+    `f(a, k=v, ...)` per alternative; a call without such ** is returned unchanged."""
+    stars = [k for k in call.keywords if k.arg is None]
+    if len(stars) != 1:
+        return [([], call)]
+    out = []
+    for terms, leaf in ifexp_terms(stars[0].value):
+        if not (isinstance(leaf, ast.Dict) and all(x is not None and str_const(x) and str_const(x).isidentifier() for x in leaf.keys)):
+            return [([], call)]
+        c2 = clone(call)
+        c2.keywords = [k for k in c2.keywords if k.arg is not None] + [ast.keyword(arg=str_const(kk), value=clone(v)) for kk, v in zip(leaf.keys, leaf.values)]
+        ast.fix_missing_locations(c2)
+        out.append((terms, c2))
+    return out
+
+
+def top_ifexp_terms(v):
+    """like ifexp_terms, but only conditional expressions at the top of ``v`` are split (conditionals nested inside calls stay)"""
+    if isinstance(v, ast.IfExp):
+        out = []
+        for pol, br in ((False, v.body), (True, v.orelse)):
+            t = nnf(v.test, pol)
+            for terms, leaf in top_ifexp_terms(br):
+                out.append(([t] + terms, leaf))
+        return out
+    return [([], v)]
 
 
 def assume_none(expr, names):
